@@ -393,6 +393,35 @@ def run_construct(pe, acc, tier, case):
                     acc.fail('construct', dict(case, lay=i, data=kind, form=form), bad)
                 else:
                     acc.ok(('cons', i, kind, form), len(lay) > 1 or form != 'auto', 'construct')
+    # the caller re-uses the configuration lists / sample arrays it passed in: observables built before, and expressions in them, stay the same
+    for la, lb in (('irr', 'g2'), ('trA', 'trB'), ('c12', 'irr')):
+        ca, cb = list(alpha.CFG[la]), list(alpha.CFG[lb])
+        xa, xb = alpha.data('white', ca, alpha.rng('c01alias', la, 'a'), 1.0, 0.1), alpha.data('white', cb, alpha.rng('c01alias', lb, 'b'), 0.7, 0.1)
+        for carrier in ('list', 'ndarray'):
+            ia, ib = (list(ca), list(cb)) if carrier == 'list' else (np.array(ca), np.array(cb))
+            sa_, sb_ = xa.copy(), xb.copy()
+            a_ = pe.Obs([sa_], ['A|r1'], idl=[ia])
+            b_ = pe.Obs([sb_], ['A|r1'], idl=[ib])
+            first = [a_ + b_, a_ * b_, np.exp(a_ - b_)]
+            before = [compare.to_ref(r) for r in first]
+            # ... the caller fills its containers with the data of the next observable
+            if carrier == 'list':
+                ia.clear()
+                ia.extend(range(100, 100 + len(ca)))
+                ib.append(10 ** 6)
+            else:
+                ia += 50
+                ib[:] = ib[::-1]
+            sa_ *= 3.0
+            sb_[:] = 0.0
+            again = [a_ + b_, a_ * b_, np.exp(a_ - b_)]
+            bad = None
+            for k, (r0, r1, r2) in enumerate(zip(before, first, again)):
+                bad = bad or ref.close(r0, compare.to_ref(r1), 1e-14) or ref.close(r0, compare.to_ref(r2), 1e-14)
+            if bad:
+                acc.fail('construct:aliased-arguments', {'kind': 'construct', 'pair': [la, lb], 'carrier': carrier}, 'after the caller re-used the %s it had passed to the constructor, the same expressions give: %s' % ('lists' if carrier == 'list' else 'arrays', bad))
+            else:
+                acc.ok(('cons-alias', la, lb, carrier), True, 'construct')
     acc.sample({'kind': 'construct', 'layout': alpha.lname(alpha.layouts(tier)[10]), 'data': 'ar1', 'idl_form': 'list'})
 
 
